@@ -321,70 +321,6 @@ func ruleSemantic(c *Ctx) {
 	ruleTokenWidth(c)
 }
 
-// delimiterDroppingKinds: token kinds whose scanner consumes characters that are not part of Value
-// (derived from the lexer: an advance before the value's start offset is taken, or after the value is sliced).
-func delimiterDroppingKinds(c *Ctx) map[string]bool {
-	pk := c.P.ByRel["internal/parser"]
-	info := pk.TypesInfo
-	out := map[string]bool{}
-	for _, f := range pk.Syntax {
-		for _, d := range f.Decls {
-			fd, ok := d.(*ast.FuncDecl)
-			if !ok || fd.Body == nil || recvTypeName(fd) != "Lexer" {
-				continue
-			}
-			// value := l.input[start:l.pos]
-			var valuePos token.Pos
-			var startObj types.Object
-			ast.Inspect(fd.Body, func(x ast.Node) bool {
-				as, ok := x.(*ast.AssignStmt)
-				if !ok || len(as.Rhs) != 1 {
-					return true
-				}
-				if se, ok := ast.Unparen(as.Rhs[0]).(*ast.SliceExpr); ok {
-					if sel, ok := ast.Unparen(se.X).(*ast.SelectorExpr); ok && sel.Sel.Name == "input" && se.Low != nil {
-						valuePos = as.Pos()
-						startObj = info.Uses[identOf(se.Low)]
-					}
-				}
-				return true
-			})
-			if valuePos == token.NoPos || startObj == nil {
-				continue
-			}
-			drops := false
-			// an advance before `start := l.pos`
-			ast.Inspect(fd.Body, func(x ast.Node) bool {
-				call, ok := x.(*ast.CallExpr)
-				if !ok {
-					return true
-				}
-				if se, ok := ast.Unparen(call.Fun).(*ast.SelectorExpr); ok && se.Sel.Name == "advance" {
-					if call.Pos() < startObj.Pos() {
-						// a character is consumed before the value's start offset is taken: a leading delimiter
-						drops = true
-					}
-				}
-				return true
-			})
-			if !drops {
-				continue
-			}
-			ast.Inspect(fd.Body, func(x ast.Node) bool {
-				if cl, ok := x.(*ast.CompositeLit); ok && typeHasSuffix(info.TypeOf(cl), "parser.Token") {
-					for _, el := range cl.Elts {
-						if kv, ok := el.(*ast.KeyValueExpr); ok && identOf(kv.Key).Name == "Type" {
-							out[identOf(kv.Value).Name] = true
-						}
-					}
-				}
-				return true
-			})
-		}
-	}
-	return out
-}
-
 // ruleTokenWidth (T15w): in the semantic tokenizer the length of a token kind whose Value drops delimiters
 // is adjusted in a branch on that kind.
 func ruleTokenWidth(c *Ctx) {
@@ -530,91 +466,3 @@ func ruleTokenWidth(c *Ctx) {
 	}
 }
 
-// ruleLexPos (L-POS): a token's start position is captured before the first advance of its scanner.
-func ruleLexPos(c *Ctx) {
-	pk := c.P.ByRel["internal/parser"]
-	info := pk.TypesInfo
-	nTok := 0
-	for _, f := range pk.Syntax {
-		for _, d := range f.Decls {
-			fd, ok := d.(*ast.FuncDecl)
-			if !ok || fd.Body == nil || recvTypeName(fd) != "Lexer" {
-				continue
-			}
-			fname := c.P.declName(fd)
-			// first position-advancing construct in the function
-			firstAdv := token.Pos(1 << 40)
-			ast.Inspect(fd.Body, func(x ast.Node) bool {
-				switch s := x.(type) {
-				case *ast.CallExpr:
-					if se, ok := ast.Unparen(s.Fun).(*ast.SelectorExpr); ok && (se.Sel.Name == "advance" || se.Sel.Name == "skipSpaces") {
-						if s.Pos() < firstAdv {
-							firstAdv = s.Pos()
-						}
-					}
-				case *ast.AssignStmt:
-					for _, l := range s.Lhs {
-						if se, ok := ast.Unparen(l).(*ast.SelectorExpr); ok && se.Sel.Name == "pos" && s.Tok == token.ADD_ASSIGN {
-							if s.Pos() < firstAdv {
-								firstAdv = s.Pos()
-							}
-						}
-					}
-				}
-				return true
-			})
-			ast.Inspect(fd.Body, func(x ast.Node) bool {
-				switch n := x.(type) {
-				case *ast.CompositeLit:
-					if !typeHasSuffix(info.TypeOf(n), "parser.Token") {
-						return true
-					}
-					nTok++
-					for _, el := range n.Elts {
-						kv, ok := el.(*ast.KeyValueExpr)
-						if !ok || identOf(kv.Key).Name != "Pos" {
-							continue
-						}
-						id, ok := ast.Unparen(kv.Value).(*ast.Ident)
-						okPos := false
-						why := "Pos is not a variable captured from the lexer's position"
-						if ok {
-							if obj := info.Uses[id]; obj != nil {
-								// its definition: x := l.position() before the first advance
-								ast.Inspect(fd.Body, func(y ast.Node) bool {
-									as, ok := y.(*ast.AssignStmt)
-									if !ok || as.Tok != token.DEFINE || len(as.Lhs) != 1 || info.Defs[identOf(as.Lhs[0])] != obj {
-										return true
-									}
-									if call, ok := ast.Unparen(as.Rhs[0]).(*ast.CallExpr); ok {
-										if se, ok := ast.Unparen(call.Fun).(*ast.SelectorExpr); ok && se.Sel.Name == "position" {
-											if as.Pos() < firstAdv {
-												okPos = true
-											} else {
-												why = "the start position is captured after the scanner has already consumed input"
-											}
-										}
-									}
-									return true
-								})
-							}
-						}
-						c.check(okPos, "L-POS", fname, "token start captured before the first advance", n.Pos(),
-							"Pos = position() taken before any input is consumed; End taken afterwards",
-							"a token is positioned after (part of) its lexeme: "+why)
-					}
-				case *ast.CallExpr:
-					if se, ok := ast.Unparen(n.Fun).(*ast.SelectorExpr); ok && se.Sel.Name == "makeToken" && len(n.Args) >= 1 {
-						nTok++
-						// zero-width token at the current position: only legitimate for EOF, and never after an advance in this function
-						isEOF := identOf(n.Args[0]).Name == "TokenEOF"
-						c.check(isEOF, "L-POS", fname, "zero-width token constructor used for EOF only", n.Pos(),
-							"makeToken (Pos = End = current position) builds the EOF token", "a non-EOF token is built with Pos = End = current position: it is empty and, if built after consuming its character, sits one column right of its lexeme")
-					}
-				}
-				return true
-			})
-		}
-	}
-	c.census("L-POS", "token constructors in the lexer", nTok, 12)
-}
